@@ -19,6 +19,29 @@ for i, v := range mk() {
 	YIELD(i*1000 + v)
 }
 RETNIL`, "range-array-nonaddressable"),
+		G("range-array-deref-nil-pointer", `
+var p *[3]int
+for i := range *p {
+	YIELD(i)
+}
+for range *p {
+	YIELD(7)
+}
+RETNIL`, "range-array-deref-nil-pointer"),
+		G("range-array-not-evaluated-with-one-variable", `
+mk := func() *[2]int { tr.E(1); return &[2]int{4, 5} }
+arr := [2]int{1, 2}
+for i := range arr {
+	arr[1] = 9
+	YIELD(i)
+}
+for i := range *mk() {
+	YIELD(i)
+}
+for i := range len(arr) {
+	YIELD(i + arr[i])
+}
+RETNIL`, "range:array"),
 		G("range-typed-int", `
 var n uint8 = 3
 for i := range n {
